@@ -4,7 +4,7 @@ import numpy as np
 from ..core import Check, Violation, hx
 from ..runner import Case
 from ..dataprog import NBProg, check_final_file, types_for, select, conv_x2m
-from ..model import check_expectations, Expect, XT2MEM, MEM, safe_range
+from ..model import check_expectations, Expect, XT2MEM, MEM, TD, random_td, safe_range
 from .. import cdfspec as cs
 
 
@@ -143,6 +143,7 @@ def render(prog, cfg, name, seed):
     p.close()
     p.emit("*", "barrier")
     p.emit(0, "snapshot", path="s:@OUT@/c10.nc", tag="final")
+    p.emit("*", "balance", final=1)
     return Case(name, np_, p.s.lines, env=env, meta={"expect": p.expect, "fm": p.fm, "feat": set(), "cfg": cfg, "getlines": getlines, "errlines": errlines, "infoline": infoline})
 
 
@@ -164,6 +165,27 @@ def _put_values(self, rank, vid, st, ct, mt, vals, form, nb=False):
     mv = conv_x2m(xv, v.xtype, mt)
     kw = self.access_args(form, st, ct, [1] * len(ct), None)
     kw.update(f=self.f, v=vid, form=form, mt=mt, data="hex:" + mv.tobytes().hex())
+    if nelem > 0 and self.rng.random() < 0.45:
+        # the same values through the flexible API and a derived buffer datatype with gaps, chosen per rendering: how the
+        # caller lays its buffer out must not influence the result either (nor must packing / in-place swap decisions)
+        base = TD.prim_(mt)
+        td = None
+        for _ in range(5):
+            t = random_td(self.rng, mt, passthrough_safe=(base.psize == 1))
+            if t.kind != "prim" and nelem % len(t.tm) == 0:
+                td = t
+                break
+        if td is None:
+            td = base.vector(nelem, 1, self.rng.randint(2, 3)) if self.rng.random() < 0.7 else base.contig(nelem)
+        per = len(td.tm)
+        bufcount = nelem // per
+        buf = np.full(td.span(bufcount), 0xC7, dtype=np.uint8)
+        pos = td.positions(nelem)
+        rb = np.frombuffer(mv.tobytes(), dtype=np.uint8).reshape(nelem, td.psize)
+        for k in range(td.psize):
+            buf[pos + k] = rb[:, k]
+        td.emit(self.s, rank, self.tslot)
+        kw.update(mt="flex", bufcount=bufcount, buftype=td.ref(), data="hex:" + buf.tobytes().hex())
     idx = select(st, ct, [1] * len(ct))
     if nb:
         self.bslot = (self.bslot + 1) % 4000
@@ -189,7 +211,7 @@ class C10(Check):
     rule = ("decomposition-independent programs (global puts/gets/nonblocking puts/redefinitions/syncs over fixed and record variables) "
             "rendered under K configurations drawn from: 1-4(8) processes, alignment hints {1,4,512,1000,4096}, nc_ibuf_size {1,64}, "
             "nc_in_place_swap, hash-table sizes {1,2,3}, header read chunk size, romio_no_indep_rw, intra-node aggregators 1..nprocs, safe "
-            "mode, PNETCDF_HINTS vs MPI_Info, blocking vs nonblocking execution.  Oracles: every rendering agrees with the data model; "
+            "mode, PNETCDF_HINTS vs MPI_Info, blocking vs nonblocking execution, typed vs flexible API with a derived buffer datatype.  Oracles: every rendering agrees with the data model; "
             "rank 0's read buffers and return codes are identical across configurations; the layout-independent logical dump of the final "
             "files is identical; variable offsets honour the alignment values ncmpi_inq_file_info reports. distinct = distinct configurations")
     assumptions = ["global puts are split along the first dimension in contiguous blocks"]
